@@ -153,4 +153,4 @@ class DiscParallelLinearization(CallableParallelExecution[StrKeyMapping, _Worker
                     disc.io.data = output.io_data
                     disc.jac = output.jacobian
 
-        return [out.jacobian for out in ordered_outputs if out is not None or None]
+        return [None if out is None else out.jacobian for out in ordered_outputs]
